@@ -647,6 +647,16 @@ class Exec:
         m = re.fullmatch(r'(\d+(?:\.\d+)?)f(32|64)', t)
         if m:
             raise Refuse('float const')
+        # associated constants of the primitive integer types (core has no MIR here)
+        m = re.fullmatch(r'(?:core::num::)?<impl ([iu](?:8|16|32|64|128|size))>::(BITS|MAX|MIN)|([iu](?:8|16|32|64|128|size))::(BITS|MAX|MIN)', t)
+        if m:
+            ity, which = (m.group(1), m.group(2)) if m.group(1) else (m.group(3), m.group(4))
+            b, sg = INT_TYPES[ity]
+            if which == 'BITS':
+                return VInt(b, 32, False)
+            if which == 'MAX':
+                return VInt((1 << (b - 1)) - 1 if sg else (1 << b) - 1, b, sg)
+            return VInt((1 << (b - 1)) if sg else 0, b, sg)
         # named constant / promoted / unit-like ADT value
         f = self.prog.resolve_const(t, fr.func if fr else None)
         if f is not None:
